@@ -4,7 +4,7 @@ import ast
 from ..core import sym
 from ..core.expand import u, call_name, get_arg, bind_args, Expander, is_marker, phi_alternatives
 from ..core.loader import Inconclusive, const_value
-from .common import (returns, all_nodes, callee, strip_shape, result_fields, calls_in, compare_nf, guards_of,
+from .common import (kw, returns, all_nodes, callee, strip_shape, result_fields, calls_in, compare_nf, guards_of,
                      find_assignments, stmt_of, opaque_in)
 
 EXPLANATION = (
@@ -320,4 +320,26 @@ def rule_simulated_catalogs(ck):
     c06.rule_reset(ck)
 
 
-RULES = [rule_kernel, rule_callsites, rule_normalisation, rule_public, rule_counts, rule_simulated_catalogs]
+def rule_flatten_order(ck, modules=('csep.core.poisson_evaluations', 'csep.core.binomial_evaluations', 'csep.core.brier_evaluations')):
+    """forecast rates and gridded counts are paired bin by bin after flattening: every flattening in the test kernels uses the
+    logical (row-major) order, never the memory layout (order='K'/'A') or column-major order of one of the arrays"""
+    P = ck.prog
+    ck.clause('D4')
+    n = 0
+    for mod in modules:
+        for f in P.funcs_in(mod):
+            for c in all_nodes(f):
+                if isinstance(c, ast.Call) and (isinstance(c.func, ast.Attribute) and c.func.attr in ('ravel', 'flatten', 'reshape') or
+                                                (callee(P, f, c) or '') in ('numpy.ravel', 'numpy.reshape')):
+                    n += 1
+                    od = kw(c, 'order')
+                    if od is None and isinstance(c.func, ast.Attribute) and c.func.attr in ('ravel', 'flatten') and c.args:
+                        od = c.args[0]
+                    if od is not None and const_value(od) != 'C':
+                        ck.ob('C05-D4.order', f, c, c).fail('`%s` flattens in order=%s: for an array that is not C-contiguous (e.g. a transposed rate '
+                                                            'table) the elements come out in another order than the gridded counts they are paired with' % (u(c)[:60], u(od)))
+    o = ck.ob('C05-D4.order', P.func(T), '%d flattening calls in the test kernels use the logical order' % n, P.func(T).node)
+    (o.ok() if n else o.unknown('no flattening call found'))
+
+
+RULES = [rule_kernel, rule_callsites, rule_normalisation, rule_public, rule_counts, rule_simulated_catalogs, rule_flatten_order]
